@@ -77,17 +77,20 @@ def unsafe_views(raw, n, m):
 
 
 def write_read_load(case, tmp=TMP):
-    t = c04.build_table(case)
+    """Raises c04.Unobservable when the writer or the raw re-read raises (an observation, not a harness error)."""
+    t, src, pre = c04.prepare(case, tmp)
     path = os.path.join(tmp, "c_%d.biom" % os.getpid())
     c04.fresh(path)
     try:
-        if case["writer"] == "convert" and case["spec"].get("type") is None:
-            t.type = "Table" if t.type in (None, "None") else t.type
-        src = c04.src_obs(t)
-        pre = c04.scipy_views(t)
-        gen_by, date = c04.write_file(case, t, path)
-        raw = c04.raw_tree(path)
-        sn = sniff(path)
+        try:
+            gen_by, date = c04.write_file(case, t, path)
+        except Exception as e:                      # noqa: BLE001
+            raise c04.Unobservable("write", e, src)
+        try:
+            raw = c04.raw_tree(path)
+            sn = sniff(path)
+        except Exception as e:                      # noqa: BLE001
+            raise c04.Unobservable("raw-read", e, src)
         bad = unsafe_views(raw, len(src["obs"]), len(src["samp"]))
         if bad is None:
             results = [(ld, ax, run_loader(path, ld, ax)) for ld, ax in LOADERS]
@@ -101,7 +104,15 @@ def write_read_load(case, tmp=TMP):
 
 
 def check_case(ctx, case, tmp=TMP):
-    src, pre, raw, gen_by, date, sn, results = write_read_load(case, tmp)
+    if hasattr(ctx, "journal"):
+        ctx.journal({"case": case})
+    try:
+        src, pre, raw, gen_by, date, sn, results = write_read_load(case, tmp)
+    except c04.Unobservable as u:
+        ctx.case({"case": case, "unobservable": u.stage}, nontrivial=False)
+        ctx.fail({"case": case}, "C01.%s-raised" % u.stage, ["route=" + case["route"], "writer=" + case["writer"],
+                                                            "exc=" + u.exc_name], detail={"what": str(u), "src": u.src})
+        return []
     base = c04.request(case, src, pre, raw, gen_by, date)
     tags0 = c04.tags_of(case, src)
     ctx.case({"src": src, "gen": gen_by, "date": base["date"], "compress": case["compress"]},
